@@ -4,6 +4,8 @@ Exhaustive enumeration of the civil calendar against the integer oracle
 (vf/oracles/calendar.py).  One *case* is one civil year; its body checks every day of
 that year in three month spellings plus the rejected day numbers of every month.
 """
+import datetime
+
 from pymeeus.Epoch import Epoch
 
 from ..core import Violation, Task
@@ -23,6 +25,9 @@ RULE = ("Enumeration, no sampling inside a year: one case per civil year in -471
         "day is built as Epoch(y, m, d) with m numeric, short name and long name (letter "
         "case rotated), compared with the integer-calendar JDN-0.5 exactly, read back "
         "with get_date(), and day 0 and day len+1 of every month must raise ValueError. "
+        "Every day is also given the other way round - its Julian Day number as a float at 0h (and "
+        "as an int at noon on every other day) must decode to the date and keep its value - and, "
+        "for years 1..9999, as a datetime.date object. "
         "Every enumerated (date, spelling) is distinct by construction and counts as "
         "non-trivial (nothing is repeated); distinct_nontrivial is the number of "
         "(date, spelling) pairs plus rejected day numbers enumerated.")
@@ -90,6 +95,28 @@ def body_year(case):
                     raise Violation("Epoch(%r, %r, %r).get_date() = %r" % (y, mm, d, g),
                                     site="Epoch.get_date", kind="readback",
                                     date=[y, m, d], form=form, got=list(g))
+                n += 1
+            # the other direction on its own: the day's Julian Day number given as a number
+            # (0h as a float; noon as an int on every other day) decodes to this date and keeps
+            # its value
+            for jd_in, frac in (((ref, 0.0),) if (d + m) % 2 else ((ref, 0.0), (int(ref + 0.5), 0.5))):
+                en = Epoch(jd_in)
+                gn = en.get_date()
+                if tuple(gn) != (y, m, d + frac) or en.jde() != jd_in:
+                    raise Violation("Epoch(%r) has jde() = %r and get_date() = %r; the integer calendar "
+                                    "says %r" % (jd_in, en.jde(), gn, (y, m, d + frac)),
+                                    site="Epoch.set", kind="from_jd", date=[y, m, d], jd=jd_in,
+                                    got=list(gn))
+                n += 1
+            if 1 <= y <= 9999 and not (m == 2 and d == 29 and y % 100 == 0 and y % 400 != 0):
+                # datetime.date is a documented input form: its fields are the civil date
+                # (in the calendar in force, as for three numbers); 29 February of a Julian
+                # century year cannot be written as a date object
+                ed = Epoch(datetime.date(y, m, d))
+                if ed.jde() != ref:
+                    raise Violation("Epoch(datetime.date(%d, %d, %d)).jde() = %r, integer calendar says %r"
+                                    % (y, m, d, ed.jde(), ref), site="Epoch.set", kind="jde_from_date_object",
+                                    date=[y, m, d], got=ed.jde(), want=ref)
                 n += 1
             if case.get("deep"):
                 # thorough tier: the same civil day given with a day fraction and with h/m/s
